@@ -902,10 +902,26 @@ fn overflow_site(a: &Args, args: &[std::ffi::OsString]) -> Option<String> {
             Some(r) => r.split_once(" in ").map(|x| x.1).unwrap_or(""),
             None => rest,
         };
-        let end = rest.find(|ch| ch == '<' || ch == ' ' || ch == '(').unwrap_or(rest.len());
-        let name = &rest[..end];
-        if name.starts_with("simplicity") && !name.contains('{') {
-            *counts.entry(name.to_owned()).or_insert(0) += 1;
+        let name: String = if rest.starts_with("simplicity") {
+            let end = rest.find(|ch| ch == '<' || ch == ' ' || ch == '(').unwrap_or(rest.len());
+            rest[..end].to_owned()
+        } else {
+            // e.g. core::ptr::drop_in_place<simplicity::types::final_data::Final> or
+            // <simplicity::types::final_data::Final as core::ops::drop::Drop>::drop
+            let end = rest.find(" (").unwrap_or(rest.len());
+            let whole = &rest[..end];
+            match whole.find("simplicity::") {
+                Some(at) => {
+                    let inner: String = whole[at..].chars().take_while(|c| c.is_alphanumeric() || *c == '_' || *c == ':').collect();
+                    let outer = whole[..at].trim_end_matches(|c| c == '<' || c == ' ');
+                    let outer = outer.rsplit("::").next().unwrap_or("");
+                    format!("{}({})", inner.trim_end_matches(':'), outer)
+                }
+                None => continue,
+            }
+        };
+        if !name.contains('{') {
+            *counts.entry(name).or_insert(0) += 1;
         }
     }
     let max = counts.values().copied().max()?;
@@ -1026,6 +1042,8 @@ struct Known {
     class: String,
     key: String,
     what: String,
+    /// the entry matches only the replay of this file under regressions/ (a specific input)
+    only_regression: Option<String>,
 }
 
 /// `*` in a known-finding key stands for any run of characters (used where one defect is reached
@@ -1069,6 +1087,7 @@ fn load_known(property: &str) -> Vec<Known> {
                 class: f["class"].as_str().unwrap_or("").to_owned(),
                 key: f["key"].as_str().unwrap_or("").to_owned(),
                 what: f["what"].as_str().unwrap_or("").to_owned(),
+                only_regression: f["only_regression_plan"].as_str().map(|s| s.to_owned()),
             });
         }
     }
@@ -1248,7 +1267,11 @@ pub fn main_with<E: Engine + 'static>(engine: &'static E) -> ! {
         if let Some((i, k)) = known
             .iter()
             .enumerate()
-            .find(|(_, k)| k.class == *class && glob_match(&k.key, key))
+            .find(|(_, k)| {
+                k.class == *class
+                    && glob_match(&k.key, key)
+                    && k.only_regression.as_ref().map(|f| v.message.contains(&format!("[regression plan {}]", f))).unwrap_or(true)
+            })
         {
             used_known.insert(i);
             lines.push(format!(
